@@ -20,7 +20,8 @@ ASSUMPTIONS = ['numpy longdouble (80-bit) arithmetic is the reference for the de
 PLAN = {'quick': {'gen': 8}, 'thorough': {'gen': 16, 'tests': 1, 'docs': 1}}
 REQUIRED_BUCKETS = ['in:1x1', 'in:even', 'in:odd', 'in:nonsquare', 'alpha:iso', 'alpha:aniso',
                     'shift0', 'shift+offset', 'unitary:True', 'unitary:False', 'out:given', 'out:none',
-                    'inverse:unitary', 'inverse:nonunitary', 'inverse:general', 'cache:evict']
+                    'inverse:unitary', 'inverse:nonunitary', 'inverse:general', 'cache:evict', 'sweep', 'out:aliased-tall',
+                    'refused-then-reused']
 REQUIRED_ANCHORS = ['anchor:_dft2_coords', 'anchor:_dft2_matrices', 'probe:dft2', 'probe:idft2']
 REQUIRED_ORACLES = ['dft2=sum', 'idft2=sum', 'roundtrip', 'parseval', 'out=same']
 
@@ -82,6 +83,9 @@ def dft2_oracle(ctx, args, kwargs, result, exc, pre):
         return
     wit = {'in_shape': list(f.shape), 'alpha': [ar, ac], 'shape': list(shape), 'shift': list(shift),
            'offset': list(offset), 'unitary': bool(a['unitary']), 'out': a['out'] is not None}
+    if exc is not None and a['out'] is not None and (np.shape(a['out']) != tuple(shape) or not np.iscomplexobj(a['out'])):
+        ctx.skip('dft2: malformed out buffer refused')
+        return
     if exc is not None:
         ctx.check(False, 'dft2=sum', f'dft2|raises={type(exc).__name__}',
                   f'dft2 raised {type(exc).__name__}: {exc}', wit)
@@ -111,7 +115,7 @@ def dft2_oracle(ctx, args, kwargs, result, exc, pre):
 def idft2_oracle(ctx, args, kwargs, result, exc, pre):
     a = _bind_idft2(args, kwargs)
     try:
-        F = np.asarray(a['F'])
+        F = np.asarray(a['F']) if pre is None else pre
         ar, ac = (float(x) for x in np.broadcast_to(a['alpha'], (2,)))
         shape = F.shape if a['shape'] is None else tuple(int(x) for x in np.broadcast_to(a['shape'], (2,)))
         shift = tuple(float(x) for x in np.broadcast_to(a['shift'], (2,)))
@@ -123,6 +127,9 @@ def idft2_oracle(ctx, args, kwargs, result, exc, pre):
     unitary = bool(a['unitary'])
     wit = {'in_shape': list(F.shape), 'alpha': [ar, ac], 'shape': list(shape), 'shift': list(shift),
            'unitary': unitary}
+    if exc is not None and a['out'] is not None and (np.shape(a['out']) != tuple(shape) or not np.iscomplexobj(a['out'])):
+        ctx.skip('idft2: malformed out buffer refused')
+        return
     if exc is not None:
         ctx.check(False, 'idft2=sum', f'idft2|raises={type(exc).__name__}',
                   f'idft2 raised {type(exc).__name__}: {exc}', wit)
@@ -148,7 +155,15 @@ def idft2_oracle(ctx, args, kwargs, result, exc, pre):
               wit, scale=tol)
 
 
+def idft2_before(ctx, args, kwargs):
+    a = _bind_idft2(args, kwargs)
+    if a['out'] is not None and isinstance(a['F'], np.ndarray) and np.shares_memory(a['out'], a['F']):
+        return np.array(a['F'], copy=True)
+    return None
+
+
 dft2_oracle.before = dft2_before
+idft2_oracle.before = idft2_before
 
 
 def install(ctx, lentil):
@@ -334,3 +349,70 @@ def workload(ctx, lentil):
                       desc, scale=max(e_in, 1e-300))
         else:
             ctx.oracle_evals['parseval'] += 0
+
+    # ---- sweeps over one argument with everything else fixed (integer offsets / whole-pixel shifts of either sign): every
+    # call is checked online, so a result carried over from a neighbouring geometry shows
+    for i in range(ctx.count(6, 40)):
+        m, n = _shape(rng, 10)
+        M, N = _shape(rng, 10)
+        f = _rand_complex(rng, (m, n))
+        ar, ac = float(rng.uniform(0.02, 0.3)), float(rng.uniform(0.02, 0.3))
+        c = int(rng.integers(-3, 4))
+        ctx.case({'sweep': [m, n, M, N], 'alpha': [ar, ac], 'fixed': c}, ['sweep'])
+        which = i % 4
+        for o in ([-1, -2, -3, 0, 1, 2, 3, -2, -1] if i % 2 else range(-3, 4)):
+            if which == 0:
+                dft2(f, (ar, ac), shape=(M, N), offset=(o, c))
+            elif which == 1:
+                dft2(f, (ar, ac), shape=(M, N), offset=(c, o), shift=(0.5, -1.0))
+            elif which == 2:
+                dft2(f, (ar, ac), shape=(M, N), shift=(float(o), float(c)))
+            else:
+                idft2(f, (ar, ac), shape=(M, N), shift=(float(c), float(o)))
+
+    # ---- tall outputs (several hundred rows) whose buffer overlaps the input through another view object
+    for i in range(ctx.count(3, 12)):
+        M = int(rng.integers(257, 340))
+        N = int(rng.integers(1, 4))
+        kind = i % 3
+        if kind == 0:                       # out is another view of the whole input
+            base = _rand_complex(rng, (M, N))
+            f, out = base, base[:]
+        elif kind == 1:                     # one plane of a cube, transformed in place
+            cube = np.stack([_rand_complex(rng, (M, N)) for _ in range(2)])
+            f, out = cube[1], cube[1]
+        else:                               # partially overlapping windows of one buffer
+            m = int(rng.integers(200, M))
+            buf = _rand_complex(rng, (M + 40, N))
+            f, out = buf[:m], buf[20:20 + M]
+        ar, ac = 1.0 / M * float(rng.uniform(0.5, 1.0)), float(rng.uniform(0.05, 0.5))
+        ctx.case({'tall-aliased': [int(x) for x in f.shape], 'out': [M, N], 'kind': kind}, ['out:aliased-tall'])
+        fresh = dft2(np.array(f, copy=True), (ar, ac), shape=(M, N))
+        try:
+            res = dft2(f, (ar, ac), shape=(M, N), out=out)
+            ctx.close('out=same', res, fresh, 1e-12, 'dft2|out-aliased|tall',
+                      'dft2 into a buffer that overlaps the input differs from a fresh allocation', {'shape': [M, N], 'kind': kind},
+                      scale=max(float(np.max(np.abs(fresh))), 1e-300))
+        except Exception as e:
+            ctx.skip(f'aliased out refused ({type(e).__name__})')
+
+    # ---- a refused call (its exception caught by the caller) leaves the input as it was; the next legal call is right
+    for i in range(ctx.count(8, 40)):
+        m, n = _shape(rng, 8)
+        F = _rand_complex(rng, (m, n))
+        fp = probe.fp_array(F)
+        alpha = (1.0 / m, 1.0 / n)
+        ctx.case({'refused-then-reused': [m, n], 'which': i % 4}, ['refused-then-reused'])
+        fn = idft2 if i % 2 else dft2
+        bad = [dict(out=np.zeros((m + 1, n + 2), complex)), dict(out=np.zeros((m, n))), dict(shape=(2, 3, 4)),
+               dict(out=np.zeros((m + 1, n), complex))][i % 4]
+        try:
+            fn(F, alpha, **bad)
+            ctx.skip('call expected to be refused was accepted')
+        except Exception:
+            pass
+        ctx.check(probe.fp_array(F) == fp, 'out=same', f'{fn.__name__}|refused-call-modified-input',
+                  'a refused transform left its input array modified', {'shape': [m, n], 'bad': sorted(bad)})
+        g = fn(F, alpha)                    # online oracle: still the transform of F
+        ctx.check(probe.fp_array(F) == fp, 'out=same', f'{fn.__name__}|input-modified', 'a transform modified its input array',
+                  {'shape': [m, n]})
